@@ -7,6 +7,18 @@ VERIF = os.path.dirname(os.path.dirname(os.path.abspath(__file__)))
 ALL = ["C%02d" % i for i in range(1, 21)]
 
 CHECKS = {
+    "C06": dict(
+        engine="ReplayWindow",
+        category="model_checking",
+        text=("TLC checks AtMostOnce and WithinWindowDelivered on the window function over every arrival sequence with repetition "
+              "(windows 1,2,3,4,8,...); every generated sequence is then replayed on a fresh live connection configured with that "
+              "window (DTLS 1.2 and a DTLS 1.3 share), and seeded long sequences from tlc -simulate exercise the default window of 64 "
+              "at its edges. Verdicts come from what Read really returned; the model's delivery list is compared too."),
+        design_ref="DESIGN.md 3 (M3), 4 (C06)",
+        note=("Trusted: TLC; lab network FIFO delivery; one payload per record. Short sessions exhaustive, long sessions sampled; "
+              "replay across export/import is not in the quantifier."),
+        technique="TLA+ model (ReplayWindow.tla) checked by TLC; TLC-generated arrival scripts replayed on live connections",
+    ),
     "C12": dict(
         engine="FragmentBuffer",
         category="model_checking",
